@@ -8,8 +8,10 @@ import (
 	"fmt"
 	"io"
 	"os"
+	"regexp"
 	"runtime"
 	"sort"
+	"strings"
 	"sync"
 )
 
@@ -42,24 +44,77 @@ type Group struct {
 	First []Finding `json:"first"` // up to 3 witnesses, smallest case index first
 }
 
+// Known is one entry of /verif/known_findings.json.
+type Known struct {
+	ID         string `json:"id"`
+	Property   string `json:"property"`
+	Target     string `json:"target"`
+	Rule       string `json:"rule"`
+	RulePrefix string `json:"rule_prefix"`
+	Class      string `json:"class"`
+	Witness    string `json:"witness"` // optional regexp that must match the finding's detail
+	re         *regexp.Regexp
+}
+
+func (k *Known) Matches(f *Finding) bool {
+	if k.Target != f.Target || k.Class != f.Class {
+		return false
+	}
+	if k.Rule != f.Rule && !(k.RulePrefix != "" && strings.HasPrefix(f.Rule, k.RulePrefix)) {
+		return false
+	}
+	if k.re != nil && !k.re.MatchString(f.Detail) {
+		return false
+	}
+	return true
+}
+
 // Collector aggregates findings from concurrent workers.
 type Collector struct {
 	mu       sync.Mutex
 	rep      Report
 	distinct map[string]struct{}
+	known    []*Known
 }
 
+// NewCollector creates a collector; the committed known findings of the property under check
+// (env VERIF_KNOWN = file, VERIF_PID = property) are loaded so that every single finding is
+// classified individually as listed or not.
 func NewCollector(family string) *Collector {
-	return &Collector{rep: Report{Family: family, Groups: map[string]*Group{}, Extra: map[string]interface{}{}}, distinct: map[string]struct{}{}}
+	c := &Collector{rep: Report{Family: family, Groups: map[string]*Group{}, Extra: map[string]interface{}{}}, distinct: map[string]struct{}{}}
+	if path := os.Getenv("VERIF_KNOWN"); path != "" {
+		var file struct {
+			Findings []*Known `json:"findings"`
+		}
+		if b, err := os.ReadFile(path); err == nil && json.Unmarshal(b, &file) == nil {
+			for _, k := range file.Findings {
+				if k.Property != os.Getenv("VERIF_PID") {
+					continue
+				}
+				if k.Witness != "" {
+					k.re = regexp.MustCompile(k.Witness)
+				}
+				c.known = append(c.known, k)
+			}
+		}
+	}
+	return c
 }
 
 func (c *Collector) Add(f Finding) {
 	c.mu.Lock()
 	defer c.mu.Unlock()
-	g := c.rep.Groups[f.Key()]
+	key := f.Key()
+	for _, k := range c.known {
+		if k.Matches(&f) {
+			key = "KNOWN:" + k.ID
+			break
+		}
+	}
+	g := c.rep.Groups[key]
 	if g == nil {
 		g = &Group{}
-		c.rep.Groups[f.Key()] = g
+		c.rep.Groups[key] = g
 	}
 	g.Count++
 	g.First = append(g.First, f)
